@@ -2,6 +2,7 @@ package c15
 
 import (
 	"fmt"
+	"sort"
 
 	"pgregory.net/rapid"
 )
@@ -146,6 +147,28 @@ var validCatalogue = []entry{
 			}
 		}
 		c.Logs[i].ID = c.Logs[j].ID
+	}},
+	{name: "tree-id-shared-across-backends", targets: whole(func(c *ValCase) bool { return c.Multi && len(c.Backends) >= 2 && len(c.Logs) >= 2 }), apply: func(t *rapid.T, c *ValCase, _ int) {
+		// one tree id on as many distinct backends as the draw allows (A B C ... never twice the same)
+		order := rapid.Permutation(allLogs(c)).Draw(t, "share-order")
+		x := c.Logs[order[0]].ID
+		used := map[string]bool{c.Logs[order[0]].Backend: true}
+		for _, j := range order[1:] {
+			be := c.Logs[j].Backend
+			if used[be] || !rapid.Bool().Draw(t, "share-this") {
+				continue
+			}
+			clash := false
+			for k := range c.Logs {
+				if k != j && c.Logs[k].Backend == be && c.Logs[k].ID == x {
+					clash = true
+				}
+			}
+			if !clash {
+				c.Logs[j].ID = x
+				used[be] = true
+			}
+		}
 	}},
 	{name: "drop-optional-pubkey", targets: func(c *ValCase) []int {
 		return logsWhere(c, func(l *RawLog) bool { return !l.Mirror && l.STH == nil && l.Pub != nil })
@@ -293,18 +316,8 @@ var invalidCatalogue = []entry{
 		c.Logs[i].STH.RootLen = rapid.SampledFrom([]int{31, 33, 0, 1, 16, 64}).Draw(t, "root-len")
 	}},
 	{name: "window-inverted", scope: "log", targets: allLogs, apply: func(t *rapid.T, c *ValCase, i int) {
-		a, b := drawValidTS(t, "inv-a"), drawValidTS(t, "inv-b")
-		if tsLess(a, b) {
-			a, b = b, a
-		}
-		if a == b {
-			if a.Nanos < 999999999 {
-				a.Nanos++
-			} else {
-				b.Nanos--
-			}
-		}
-		c.Logs[i].Start, c.Logs[i].Limit = &a, &b // start strictly after limit
+		lo, hi := drawWindow(t, "inv") // includes inversions inside one second and across adjacent seconds
+		c.Logs[i].Start, c.Logs[i].Limit = &hi, &lo // start strictly after limit
 	}},
 	{name: "window-start-invalid", scope: "log", targets: allLogs, apply: func(t *rapid.T, c *ValCase, i int) {
 		ts := drawInvalidTS(t, "bad-start")
@@ -367,6 +380,27 @@ var invalidCatalogue = []entry{
 		j := (i + rapid.IntRange(1, len(c.Logs)-1).Draw(t, "id-donor")) % len(c.Logs)
 		c.Logs[i].ID = c.Logs[j].ID
 		c.Logs[i].Backend = c.Logs[j].Backend // same backend: the per-backend rule
+	}},
+
+	{name: "tree-id-duplicate-pattern", scope: "set", targets: whole(func(c *ValCase) bool { return len(c.Logs) >= 2 }), apply: func(t *rapid.T, c *ValCase, _ int) {
+		// 2-5 logs at arbitrary positions share one tree id; their backends are drawn freely, then one
+		// pair is forced onto the same backend (any position pattern: A A, A B A, A B B A, B A C A ...)
+		m := rapid.IntRange(2, min(len(c.Logs), 5)).Draw(t, "dup-m")
+		pos := append([]int(nil), rapid.Permutation(allLogs(c)).Draw(t, "dup-pos")[:m]...)
+		sort.Ints(pos)
+		x := c.Logs[pos[0]].ID
+		if c.Multi && len(c.Backends) > 0 {
+			names := backendNames(c.Backends)
+			for _, p := range pos {
+				c.Logs[p].Backend = rapid.SampledFrom(names).Draw(t, "dup-backend")
+			}
+			a := rapid.IntRange(0, m-2).Draw(t, "dup-a")
+			b := rapid.IntRange(a+1, m-1).Draw(t, "dup-b")
+			c.Logs[pos[b]].Backend = c.Logs[pos[a]].Backend
+		}
+		for _, p := range pos {
+			c.Logs[p].ID = x
+		}
 	}},
 
 	// --- rules of the backend set
@@ -469,7 +503,7 @@ func genVal(t *rapid.T) ValCase {
 		c.Backends = drawBackends(t)
 		names = backendNames(c.Backends)
 	}
-	n := rapid.IntRange(1, 4).Draw(t, "nlogs")
+	n := rapid.IntRange(1, 6).Draw(t, "nlogs")
 	for i := 0; i < n; i++ {
 		c.Logs = append(c.Logs, drawLog(t, i, names, false))
 	}
